@@ -1322,6 +1322,9 @@ Unwind(c) ==
                  IF c0.kont # <<>> /\ Top(c0).k = "loop" /\ Top(c0).node.k = "for"
                  THEN [c1 EXCEPT !.ctl.trace = Append(@, Top(c0).node.id)] ELSE c1)
            [] OTHER -> Unspec(c, "loop-control-across-generator"))
+    ELSE IF ctl.m = "thr" /\ f.k = "metak" /\ "site" \in DOMAIN f /\ f.site # 0 THEN
+        \* C12: the expression whose operator or protocol ran the failing metakey function is an enclosing call site
+        [c0 EXCEPT !.ctl.trace = Append(@, f.site)]
     ELSE IF ctl.m = "thr" /\ f.k \in {"nextk", "collect", "fold"} /\ "site" \in DOMAIN f THEN
         \* C12: a core-library function that was running user code is an enclosing call site
         [c0 EXCEPT !.ctl.trace = Append(@, f.site)]
@@ -1344,7 +1347,10 @@ Step(c) ==
                 [] c.ctl.m = "rt" -> Return(c1, c.ctl.v)
                 [] c.ctl.m \in {"brk", "cnt", "ret", "thr"} -> Unwind(c1)
                 [] c.ctl.m = "done" -> c
-    IN IF c2.ctl.m = "thr" /\ ~("at" \in DOMAIN c2.ctl) THEN [c2 EXCEPT !.ctl = [at |-> NodeOfStep(c)] @@ @] ELSE c2
+        \* C12 ghost: a metakey function started by this step (operator, protocol) was started from the node of this step
+        c3 == IF Len(c2.kont) >= 2 /\ c2.kont[2].k = "metak" /\ ~("site" \in DOMAIN c2.kont[2]) /\ Len(c2.kont) > Len(c.kont)
+              THEN [c2 EXCEPT !.kont[2] = [site |-> NodeOfStep(c)] @@ @] ELSE c2
+    IN IF c3.ctl.m = "thr" /\ ~("at" \in DOMAIN c3.ctl) THEN [c3 EXCEPT !.ctl = [at |-> NodeOfStep(c)] @@ @] ELSE c3
 
 (* dev: the set of named deviations (known findings modelled as the code behaves) that are enabled;
    used: those whose rule was actually taken in this run. *)
